@@ -302,3 +302,83 @@ func VerifH_C10_api_session_corpus() {
 	vrt.Assert(len(now.attrs) == wantAttrs, "attribute-count-after-session")
 	vrt.Covered("sessions-compared")
 }
+
+// a session that makes the object's attribute storage change from compact to dense (the header is full after the 5th
+// attribute), followed by more operations on the same handle: upserts and deletes of names stored before and after the
+// transition behave like on a map
+func VerifH_C10_api_session_transition() {
+	vrt.LoopBound(400000)
+	fw, err := CreateForWrite("c10t.h5", CreateTruncate)
+	vrt.AssertNoErr(err, "create-ok")
+	a, err := fw.CreateDataset("/a", Int32, []uint64{1})
+	vrt.AssertNoErr(err, "create-a-ok")
+	vrt.AssertNoErr(a.Write([]int32{1}), "write-a-ok")
+	model := map[string]int32{}
+	isStr := map[string]bool{}
+	for i, n := range []string{"p0", "p1", "p2"} {
+		vrt.AssertNoErr(a.WriteAttribute(n, int32(i)), "prefix-attr-ok")
+		model[n] = int32(i)
+	}
+	vrt.AssertNoErr(fw.Close(), "close-ok")
+
+	s, err := OpenForWrite("c10t.h5", OpenReadWrite)
+	vrt.AssertNoErr(err, "open-for-write-ok")
+	d, err := s.OpenDataset("/a")
+	vrt.AssertNoErr(err, "open-dataset-ok")
+	for _, n := range []string{"p4", "p13"} {
+		v := vrt.I32()
+		vrt.AssertNoErr(d.WriteAttribute(n, v), "session-attr-ok")
+		model[n] = v
+	}
+	name := []string{"p0", "p4", "p13", "p9"}[vrt.Choice(4)]
+	_, present := model[name]
+	switch vrt.Choice(3) {
+	case 0:
+		v := vrt.I32()
+		if d.WriteAttribute(name, v) == nil {
+			model[name] = v
+		}
+	case 1:
+		if d.WriteAttribute(name, "str4") == nil {
+			model[name] = 0
+			isStr[name] = true
+		}
+	default:
+		err := d.DeleteAttribute(name)
+		if present {
+			vrt.AssertNoErr(err, "delete-present-ok")
+		} else {
+			vrt.Assert(err != nil, "delete-absent-reports-error")
+		}
+		if err == nil {
+			delete(model, name)
+		}
+	}
+	vrt.AssertNoErr(s.Close(), "session-close-ok")
+
+	f, err := Open("c10t.h5")
+	vrt.AssertNoErr(err, "reopen-ok")
+	da := verifFindDataset(f, "/a")
+	vrt.Assert(da != nil, "dataset-found-at-path")
+	list, err := da.ListAttributes()
+	vrt.AssertNoErr(err, "list-attributes-ok")
+	vrt.Assert(len(list) == len(model), "attribute-count-after-session")
+	seen := map[string]bool{}
+	for _, n := range list {
+		vrt.Assert(!seen[n], "attr-names-unique")
+		seen[n] = true
+	}
+	for n, want := range model {
+		got, err := da.ReadAttribute(n)
+		vrt.AssertNoErr(err, "attr-read-ok")
+		if isStr[n] {
+			gs, ok := got.(string)
+			vrt.Assert(ok && gs == "str4", "content-is-previous-plus-modification")
+		} else {
+			gi, ok := got.(int32)
+			vrt.Assert(ok && gi == want, "content-is-previous-plus-modification")
+		}
+	}
+	vrt.Covered("sessions-compared")
+	_ = f.Close()
+}
